@@ -9,6 +9,7 @@ import DtsVerif.Drv.Resid
 import DtsVerif.Drv.Attrs
 import DtsVerif.Drv.TimeCoords
 import DtsVerif.Drv.Chunk
+import DtsVerif.Drv.Readers
 /-! Line-protocol driver: one JSON request per line on stdin, one JSON reply per line on stdout. -/
 open Lean DtsVerif.Drv
 
@@ -35,6 +36,10 @@ def dispatch (op : String) (j : Json) : R Json :=
   | "time.coords" => opTimeCoords j
   | "time.convert" => opTimeConvert j
   | "chunk" => opChunk j
+  | "reader.stack" => opReaderStack j
+  | "reader.order_by_time" => opReaderOrderTime j
+  | "reader.sensornet_cut" => opSensornetCut j
+  | "reader.sensortran" => opSensortran j
   | _ => throw "bad-op"
 
 def handle (line : String) : String :=
